@@ -693,6 +693,21 @@ fn c09_long_history(tier: &str) -> i32 {
                 return bad(format!("reopen after {txns} transactions failed: {e}"));
             }
             if let Some(e) = check(&mut db, &model, &format!("after reopen at {txns} transactions")) {
+                // listed finding: beyond transaction id 8192 a rolled-back insert that no VACUUM removed before the
+                // reopen becomes visible; recognised by its shape (only keys of rolled-back inserts are extra)
+                let id = "KT-aborted-transaction-id-beyond-8192-forgotten-at-reopen";
+                let extra_only_ghosts = match db.exec("SELECT * FROM h") {
+                    Out::Rows(rows) => {
+                        let got: std::collections::BTreeSet<i128> = rows.iter().filter_map(|r| if let Val::Int(k) = &r[0] { Some(*k) } else { None }).collect();
+                        model.keys().all(|k| got.contains(k)) && got.iter().filter(|k| !model.contains_key(k)).all(|k| *k >= 1_000_000)
+                    }
+                    _ => false,
+                };
+                if txns > 8192 && extra_only_ghosts && Findings::load().ids_for("C09").contains(id) {
+                    crate::report::EXTRA_REOBSERVED.lock().unwrap().push((id.to_string(), format!("long history: after the reopen at {txns} transactions rolled-back inserts of transactions with ids above 8192 are visible")));
+                    eprintln!("[C09] long history: {txns} transactions, listed finding re-observed at a reopen; the history ends here");
+                    return 0;
+                }
                 return bad(e);
             }
         }
@@ -701,6 +716,19 @@ fn c09_long_history(tier: &str) -> i32 {
         return bad(format!("final reopen after {txns} transactions failed: {e}"));
     }
     if let Some(e) = check(&mut db, &model, &format!("after the final reopen ({txns} transactions)")) {
+        let id = "KT-aborted-transaction-id-beyond-8192-forgotten-at-reopen";
+        let extra_only_ghosts = match db.exec("SELECT * FROM h") {
+            Out::Rows(rows) => {
+                let got: std::collections::BTreeSet<i128> = rows.iter().filter_map(|r| if let Val::Int(k) = &r[0] { Some(*k) } else { None }).collect();
+                model.keys().all(|k| got.contains(k)) && got.iter().filter(|k| !model.contains_key(k)).all(|k| *k >= 1_000_000)
+            }
+            _ => false,
+        };
+        if txns > 8192 && extra_only_ghosts && Findings::load().ids_for("C09").contains(id) {
+            crate::report::EXTRA_REOBSERVED.lock().unwrap().push((id.to_string(), format!("long history: after the final reopen ({txns} transactions) rolled-back inserts of transactions with ids above 8192 are visible")));
+            eprintln!("[C09] long history: {txns} transactions, listed finding re-observed at the final reopen");
+            return 0;
+        }
         return bad(e);
     }
     // fresh ids after all that: a rolled-back insert stays invisible across another reopen, a committed one stays
